@@ -12,8 +12,14 @@ use std::borrow::Cow;
 use std::convert::Infallible;
 use std::fmt::Display;
 
-const KEYWORDS: [&str; 9] = [
-    "use", "mod", "const", "type", "pub", "enum", "struct", "impl", "trait",
+/// Strict and reserved keywords of the Rust editions 2015 to 2021 (lower-case ones only, since
+/// field names are converted to snake case before the check).
+const KEYWORDS: [&str; 50] = [
+    "as", "break", "const", "continue", "crate", "else", "enum", "extern", "false", "fn", "for",
+    "if", "impl", "in", "let", "loop", "match", "mod", "move", "mut", "pub", "ref", "return",
+    "self", "static", "struct", "super", "trait", "true", "type", "unsafe", "use", "where",
+    "while", "async", "await", "dyn", "abstract", "become", "box", "do", "final", "macro",
+    "override", "priv", "typeof", "unsized", "virtual", "yield", "try",
 ];
 
 pub trait GeneratorSupplement<T> {
